@@ -98,6 +98,9 @@ void harness(void)
 {
     alen = nondet_uint();
     VF_ASSUME(alen <= VF_N);
+#ifdef VF_EXACT_N
+    alen = VF_N;               /* one query per length */
+#endif
     for (unsigned i = 0; i < VF_N; i++) {
         unsigned char c = nondet_uchar();
         VF_ASSUME(c < 0x80);                         /* pure-ASCII address */
